@@ -361,7 +361,11 @@ func (s *Stream) compileExpressionInfo() {
 		exprInfo.processedExpr = processedExpr
 
 		// Pre-judge expression characteristics
-		exprInfo.isFunctionCall = strings.Contains(fieldExpr.Expression, "(") && strings.Contains(fieldExpr.Expression, ")")
+		// A CASE expression is evaluated by the custom expression engine even when it contains
+		// parentheses or function calls: expr-lang (the bridge) has no CASE syntax, so routing it
+		// there as a "function call" made e.g. CASE WHEN (a > 2) THEN 1 ELSE 0 END always NULL.
+		exprInfo.isFunctionCall = strings.Contains(fieldExpr.Expression, "(") && strings.Contains(fieldExpr.Expression, ")") &&
+			!isCaseExpressionText(fieldExpr.Expression)
 		exprInfo.hasNestedFields = !exprInfo.isFunctionCall && strings.Contains(fieldExpr.Expression, ".")
 		exprInfo.needsBacktickPreprocess = bridge.ContainsBacktickIdentifiers(fieldExpr.Expression)
 
@@ -392,6 +396,12 @@ func (s *Stream) compileExpressionInfo() {
 
 		s.compiledExprInfo[fieldName] = exprInfo
 	}
+}
+
+// isCaseExpressionText reports whether the expression text is a CASE ... END expression.
+func isCaseExpressionText(e string) bool {
+	t := strings.ToUpper(strings.TrimSpace(e))
+	return strings.HasPrefix(t, "CASE ") || strings.HasPrefix(t, "CASE\t") || strings.HasPrefix(t, "CASE\n")
 }
 
 // processExpressionField processes expression field
@@ -511,7 +521,8 @@ func (s *Stream) processExpressionFieldFallback(fieldName string, dataMap map[st
 	}
 
 	// Check if expression is a function call (contains parentheses)
-	isFunctionCall := strings.Contains(fieldExpr.Expression, "(") && strings.Contains(fieldExpr.Expression, ")")
+	isFunctionCall := strings.Contains(fieldExpr.Expression, "(") && strings.Contains(fieldExpr.Expression, ")") &&
+		!isCaseExpressionText(fieldExpr.Expression)
 
 	// Check if expression contains nested fields (but exclude dots in function calls)
 	hasNestedFields := false
